@@ -47,6 +47,8 @@ func (StatsReporter).Flush returns (err)
   // ... and the dates: "today" is the configured now, first / last are the record's dates, all in the reporter's
   // layout; "days ago" is the whole number of 24-hour periods between the CONFIGURED now (--today, not the clock)
   // and that date, truncated towards zero (C07, C05)
+  // the labelled lines (what each figure is called): the format of every line
+  ensures @labels [C07] prFmt[B] == "  Database file:      %s\n" && prFmt[B + 1] == "  Database records:   %d\n" && prFmt[B + 3] == "  Log file:           %s\n" && prFmt[B + 4] == "  Log records:        %d\n" && prFmt[B + 5] == "  Today:              %s\n" && prFmt[B + 6] == "  First record:       %s (%d days ago)\n" && prFmt[B + 7] == "  Last record:        %s (%d days ago)\n"
   ensures @today [C07 C05] PrintedStr(B + 5, 0, FormatTime(sr.stats.Now, sr.dateFormat))
   ensures @first-last [C07 C05] PrintedStr(B + 6, 0, FormatTime(sr.stats.LogFirstRecord, sr.dateFormat)) && PrintedStr(B + 7, 0, FormatTime(sr.stats.LogLastRecord, sr.dateFormat))
   ensures @days-ago [C07 C05] typeis(prArgs[B + 6][1], "int") && TruncOf(cellat(int, payload(prArgs[B + 6][1])), HoursOf(SubT(sr.stats.Now, sr.stats.LogFirstRecord)) / 24.0) && typeis(prArgs[B + 7][1], "int") && TruncOf(cellat(int, payload(prArgs[B + 7][1])), HoursOf(SubT(sr.stats.Now, sr.stats.LogLastRecord)) / 24.0)
